@@ -723,7 +723,9 @@ func Explore(u *Universe, m Monitor, cfg Config) *Result {
 				if isNew && cfg.OnState != nil {
 					cfg.OnState(full)
 				}
-				if isNew && cfg.Drain {
+				// universes with a long setup (big fan-out windows): the tail below the free keys is the same
+				// from every state, so only the first states get the (long) drain
+				if isNew && cfg.Drain && (len(u.Setup) <= 24 || st.States+st.Variants <= 12) {
 					for _, desc := range []bool{false, true} {
 						if dv, dpath := e.drainFrom(full, desc); dv != nil {
 							if e.report(dv, dpath, "") {
